@@ -22,9 +22,10 @@ func init() {
 			"(6) the poll re-sends until acknowledged: in StreamWAL's ticker loop every iteration that finds the log ahead of the session's acknowledged position calls sendUpdatedEntries — no loop-local 'already sent' state may suppress the retransmission (pushed messages can be lost: the replica abandons receivers on timeout); (7) shared with C13: the replica's cursor discipline (a cursor advanced past an entry that was not applied makes the gap permanent). " +
 			"(8) the 'nothing to send' exits of the catch-up reader are decided by the requested position and the log's own counter only; the replica does not lower its gRPC receive limit below the library default. " +
 			"Added after blind round 5: GetEntriesFrom flushes the buffered writer (directly or through a helper) before it reads a log file; the replication entry codec agreement (shared with C13). " +
-			"Added after blind round 6: the replica's receive functions have no failing exit decided by the size of the received payloads (the primary caps batches by entry count; a refused batch is re-sent and refused for ever); handleErrorState never parks: no plain channel receive, every exit besides cancellation passes SetState(StateConnecting).",
+			"Added after blind round 6: the replica's receive functions have no failing exit decided by the size of the received payloads (the primary caps batches by entry count; a refused batch is re-sent and refused for ever); handleErrorState never parks: no plain channel receive, every exit besides cancellation passes SetState(StateConnecting). " +
+			"Added after blind round 7: the replica's state loop returns only on the ctx.Done() arm; the catch-up poll sends the entries as read (no re-slicing before the emptiness test).",
 		NotDecided: "convergence itself, time bounds, join/restart timing, the replica state machine's liveness, retention racing with a slow replica.",
-		Rules:      []func(*Ctx, *Reporter){ruleC14ObserversFollow, ruleC14ObserversSee, ruleC14SeqContract, ruleC14CursorUnits, ruleC14CatchUp, ruleC14PollRetransmits, ruleReplCursor, ruleCatchUpGuard, ruleNoReceiveLimit, ruleCatchUpFlushesFirst, ruleReplEntryCodec, ruleReplicaAcceptsWhatIsSent, ruleErrorStateRetries},
+		Rules:      []func(*Ctx, *Reporter){ruleC14ObserversFollow, ruleC14ObserversSee, ruleC14SeqContract, ruleC14CursorUnits, ruleC14CatchUp, ruleC14PollRetransmits, ruleReplCursor, ruleCatchUpGuard, ruleNoReceiveLimit, ruleCatchUpFlushesFirst, ruleReplEntryCodec, ruleReplicaAcceptsWhatIsSent, ruleErrorStateRetries, ruleReplicationLoopNeverGivesUp, rulePollSendsWhatItRead},
 	})
 }
 
